@@ -250,7 +250,7 @@ Definition is_err (r : res) : bool := match r with RErr _ => true | _ => false e
 
 (* bookkeeping of the observer (the Go harness keeps exactly this): which allocations are live,
    what the guest stored, whether a call failed, whether an assumption was broken *)
-Definition track (g : ghost) (o : op) (ob : obs) : ghost :=
+Definition track (hb : N) (g : ghost) (o : op) (ob : obs) : ghost :=
   let pg := o_pages ob in
   match o with
   | OAlloc size =>
@@ -261,13 +261,20 @@ Definition track (g : ghost) (o : op) (ob : obs) : ghost :=
     | _ => g
     end
   | OFree ptr =>
-    match o_res ob with
-    | ROk => if is_live_ptr (g_live g) ptr
-             then mkGhost (remove_live (g_live g) ptr) (g_shadow g) (g_written g) (g_dead g) (g_void g) pg
-             else mkGhost (g_live g) (g_shadow g) (g_written g) (g_dead g) true pg   (* forged header *)
-    | RErr _ => mkGhost (g_live g) (g_shadow g) (g_written g) true (g_void g) pg
-    | _ => g
-    end
+    if is_live_ptr (g_live g) ptr then
+      match o_res ob with
+      | ROk => mkGhost (remove_live (g_live g) ptr) (g_shadow g) (g_written g) (g_dead g) (g_void g) pg
+      | RErr _ => mkGhost (g_live g) (g_shadow g) (g_written g) true (g_void g) pg
+      | _ => g
+      end
+    else if exempt hb (g_written g) ptr then
+      (* the guest passed a pointer whose would-be header lies in bytes it controls *)
+      mkGhost (g_live g) (g_shadow g) (g_written g) (g_dead g) true pg
+    else
+      match o_res ob with
+      | RErr _ => mkGhost (g_live g) (g_shadow g) (g_written g) true (g_void g) pg
+      | _ => g
+      end
   | OWrite a v =>
     if in_live (g_live g) a
     then mkGhost (g_live g) ((a, v mod 256) :: g_shadow g) (a :: g_written g) (g_dead g) (g_void g) pg
@@ -322,7 +329,7 @@ Definition step_ok (hb : N) (g : ghost) (o : op) (ob : obs) : bool :=
 Fixpoint check_from (hb : N) (g : ghost) (tr : list (op * obs)) : bool :=
   match tr with
   | [] => true
-  | (o, ob) :: r => step_ok hb g o ob && check_from hb (track g o ob) r
+  | (o, ob) :: r => step_ok hb g o ob && check_from hb (track hb g o ob) r
   end.
 
 Record cfg := mkCfg { c_hb : N; c_pages : N; c_max : N }.
@@ -337,7 +344,7 @@ Definition check (c : cfg) (tr : list (op * obs)) : bool :=
 Definition step (v : variant) (x : st * mem * ghost) (o : op) : obs * (st * mem * ghost) :=
   let '(s, m, g) := x in
   let fin (r : res) (s' : st) (m' : mem) :=
-    let ob := mkObs r (m_pages m') in (ob, (s', m', track g o ob)) in
+    let ob := mkObs r (m_pages m') in (ob, (s', m', track (s_hb s) g o ob)) in
   match o with
   | OAlloc size => let '(r, s', m') := alloc v s m size in fin r s' m'
   | OFree ptr => let '(r, s', m') := dealloc v s m ptr in fin r s' m'
@@ -349,7 +356,7 @@ Definition step (v : variant) (x : st * mem * ghost) (o : op) : obs * (st * mem 
     if in_live (g_live g) a then fin (RVal (m_data m a)) s m else fin RSkip s m
   | OGrow n =>
     match grow m n with Some m' => fin ROk s m' | None => fin (RErr EGrow) s m end
-  | OSetPages n => fin ROk s (mkMem n (m_max m) (m_data m))
+  | OSetPages n => fin ROk s (mkMem (N.min n (m_max m)) (m_max m) (m_data m))
   end.
 
 Fixpoint run_from (v : variant) (x : st * mem * ghost) (ops : list op) : list (op * obs) :=
